@@ -695,7 +695,8 @@ def fn_structure(text):
                     elif d2 == 0 and ((u[0] == 'punct' and u[1] in '{;') or (u[0] == 'id' and u[1] == 'where')):
                         break
                     j += 1
-                arrow = (st[idx + 2][1][2], st[j - 1][1][3])
+                if arrow is None:     # the function's own return type, not an `Fn(..) -> U` inside a where clause
+                    arrow = (st[idx + 2][1][2], st[j - 1][1][3])
                 idx = j
                 continue
             elif t[1] == '{' and depth == 0:
@@ -901,6 +902,7 @@ GE = '/*>vxg*/'
 def splice(text, sections, where):
     """sections: list of (kind, args, body)"""
     inserts = []   # (offset, order, text)
+    deletions = []  # (start, end) spans of the original text to drop (closure parameter lists being replaced)
     order = 0
     st, toks = fn_structure(text)
     retname = None
@@ -955,6 +957,57 @@ def splice(text, sections, where):
             else:
                 e = stmt_end(toks, k)
                 inserts.append((toks[e][3], order, '\n' + GB + body.rstrip() + GE + '\n'))
+        elif kind == 'closure':
+            # annotate the N-th closure of the function (source order): its parameter list `|..|` is replaced by the
+            # typed header given in the template, requires/ensures clauses are inserted, and an expression body is
+            # wrapped in braces (Verus needs a block body once a return type is named).  Ghost-only: the body is untouched.
+            check_ghost('sig', body, w)
+            n = int(args[0])
+            sgt = [(q, t) for q, t in enumerate(toks) if t[0] not in ('ws', 'lcomment', 'bcomment')]
+            found = []
+            for a in range(1, len(sgt)):
+                q, t = sgt[a]
+                pq, pt = sgt[a - 1]
+                if t[0] == 'punct' and t[1] == '|' and ((pt[0] == 'punct' and pt[1] in '(,=') or (pt[0] == 'id' and pt[1] in ('move', 'return'))):
+                    # closing bar
+                    b = a + 1
+                    if sgt[b][1][1] == '|':      # `||`
+                        pass
+                    else:
+                        while b < len(sgt) and not (sgt[b][1][0] == 'punct' and sgt[b][1][1] == '|'):
+                            b += 1
+                    found.append((a, b))
+            if len(found) < n:
+                raise ExtractError('anchor-lost', '%s: function has %d closures' % (w, len(found)))
+            a, b = found[n - 1]
+            p_start = sgt[a][1][2]
+            p_end = sgt[b][1][3]
+            nxt = sgt[b + 1][1]
+            hdr = args[1]
+            if nxt[0] == 'punct' and nxt[1] == '{':
+                inserts.append((p_start, order, hdr + '\n' + GB + body.rstrip() + GE + '\n'))
+                # remove the old parameter list: done by a deletion marker below
+                deletions.append((p_start, p_end))
+            else:
+                # expression body: ends before the `,` or closing bracket at depth 0
+                d = 0
+                e = b + 1
+                while e < len(sgt):
+                    u = sgt[e][1]
+                    if u[0] == 'punct':
+                        if u[1] in '([{':
+                            d += 1
+                        elif u[1] in ')]}':
+                            if d == 0:
+                                break
+                            d -= 1
+                        elif u[1] == ',' and d == 0:
+                            break
+                    e += 1
+                body_end = sgt[e - 1][1][3]
+                inserts.append((p_start, order, hdr + '\n' + GB + body.rstrip() + GE + '\n{ '))
+                inserts.append((body_end, order, ' }'))
+                deletions.append((p_start, p_end))
         elif kind == 'start':
             check_ghost('stmt', body, w)
             if st['body_open'] is None:
@@ -976,11 +1029,23 @@ def splice(text, sections, where):
     inserts.sort(key=lambda x: (x[0], x[1]))
     out = []
     pos = 0
+
+    def keep(a, b):
+        # text[a:b] minus the deleted spans
+        res = []
+        cur = a
+        for ds, de in sorted(deletions):
+            if de <= cur or ds >= b:
+                continue
+            res.append(text[cur:max(cur, ds)])
+            cur = max(cur, min(de, b))
+        res.append(text[cur:b])
+        return ''.join(res)
     for off, _, ins in inserts:
-        out.append(text[pos:off])
+        out.append(keep(pos, off))
         out.append(ins)
         pos = off
-    out.append(text[pos:])
+    out.append(keep(pos, len(text)))
     return ''.join(out)
 
 
@@ -997,7 +1062,7 @@ def parse_sections(body, where):
     cur = None
     for line in body.split('\n'):
         s = line.strip()
-        m = re.match(r'^@(ret|sig|loop|before|after|start|end|header|drop)\b(.*)$', s)
+        m = re.match(r'^@(ret|sig|loop|before|after|start|end|header|drop|closure)\b(.*)$', s)
         if m:
             kind = m.group(1)
             rest = m.group(2).strip()
@@ -1015,6 +1080,11 @@ def parse_sections(body, where):
                 args = rest.split()
                 if len(args) != 1:
                     raise ExtractError('bad-template', '%s: @ret needs a name' % where)
+            elif kind == 'closure':
+                m2 = re.match(r'^(\d+)\s+`(.*)`\s*$', rest)
+                if not m2:
+                    raise ExtractError('bad-template', '%s: @closure needs  N `|typed params| -> (ret: T)`' % where)
+                args = [m2.group(1), m2.group(2)]
             elif kind == 'drop':
                 m2 = re.match(r'^`(.*)`\s*$', rest)
                 if not m2:
@@ -1118,6 +1188,48 @@ def extract_item(repo_root, rel, container, kind, name, opts, unit_rules, sectio
     return text, meta
 
 
+def find_proved_contract(verif_root, unit, rel, container, kind, name, mine, ret):
+    """name of a unit (other than `unit`) whose template extracts the same item with the same @sig and NO external_body"""
+    udir = os.path.join(verif_root, 'units')
+    for u in sorted(os.listdir(udir)):
+        if u == unit:
+            continue
+        tp = os.path.join(udir, u, 'unit.rs')
+        if not os.path.isfile(tp):
+            continue
+        t = open(tp, encoding='utf-8').read()
+
+        def inc(m):
+            b = m.group(1).strip()
+            if b.startswith('include '):
+                try:
+                    return open(os.path.join(verif_root, b[len('include '):].strip()), encoding='utf-8').read()
+                except OSError:
+                    return ''
+            return m.group(0)
+        for _ in range(3):
+            t = DIRECTIVE.sub(inc, t)
+        for m in DIRECTIVE.finditer(t):
+            body = m.group(1)
+            first, _, rest = body.strip('\n').partition('\n')
+            first = first.strip()
+            if not first.startswith('extract '):
+                continue
+            parts = [p.strip() for p in first[len('extract '):].split('|')]
+            if len(parts) < 3 or parts[0] != rel or norm_tokens(parts[1]) != norm_tokens(container):
+                continue
+            kn = parts[2].split(None, 1)
+            if kn[0] != kind or (kn[1].strip() if len(kn) > 1 else '') != name:
+                continue
+            if t[:m.start()].rstrip().endswith('#[verifier::external_body]'):
+                continue
+            secs = parse_sections(rest, u)
+            theirs = norm_ws(strip_comments('\n'.join(b for k, a, b in secs if k == 'sig')))
+            if theirs == mine and [a for k, a, b in secs if k == 'ret'] == ret:
+                return u
+    return None
+
+
 def assemble(verif_root, repo_root, unit, out_path):
     """returns meta dict; writes the assembled file"""
     unit_dir = os.path.join(verif_root, 'units', unit)
@@ -1167,6 +1279,16 @@ def assemble(verif_root, repo_root, unit, out_path):
             text, meta = extract_item(repo_root, rel, container, kind, name, opts, unit_rules, sections, where)
             label = opts.get('label', name)
             meta['label'] = label
+            # a function marked `#[verifier::external_body]` in the template is a STUB of an already proved callee:
+            # its contract must be textually identical to the @sig of the unit that proves it (checked here)
+            before = ''.join(out).rstrip()
+            if before.endswith('#[verifier::external_body]'):
+                mine = norm_ws(strip_comments('\n'.join(b for k, a, b in sections if k == 'sig')))
+                ret = [a for k, a, b in sections if k == 'ret']
+                prover = find_proved_contract(verif_root, unit, rel, container, kind, name, mine, ret)
+                if prover is None:
+                    raise ExtractError('bad-template', '%s: external_body stub of %s, but no other unit proves this function with an identical @sig contract' % (where, name))
+                meta['stub_of'] = prover
             cur_line = ''.join(out).count('\n') + 1
             meta['out_lines'] = [cur_line, cur_line + text.count('\n')]
             extracts.append(meta)
